@@ -21,17 +21,70 @@ def setup_repo_import() -> None:
     """Import han from /repo's working tree, never from an installed copy."""
     if sys.path[0] != REPO:
         sys.path.insert(0, REPO)
-    import logging
-
-    logging.disable(logging.CRITICAL)
+    set_logging("off")
     import han  # noqa: F401
 
     got = os.path.dirname(os.path.dirname(os.path.abspath(han.__file__)))
     if os.path.realpath(got) != os.path.realpath(REPO):
         raise SystemExit(f"han imported from {got}, expected {REPO}")
-    from mc import cover
+    from mc import cover, vclock
 
     cover.start(REPO)
+    vclock.install()
+    import importlib
+
+    for name in ("hdlc", "dlde", "autodecoder", "common", "fastframecheck", "obis"):  # (meter_connection gets its own virtual clock in mc/vloop.py)
+        try:
+            vclock.shim_module(importlib.import_module("han." + name))
+        except Exception:  # noqa: BLE001
+            pass
+
+
+class _Sink:
+    """A logging handler that formats every record (so that every log argument is evaluated) and keeps nothing."""
+
+    def __new__(cls):
+        import logging
+
+        class Sink(logging.Handler):
+            def emit(self, record):
+                try:  # as logging.StreamHandler does: an error while formatting is the handler's problem, never the caller's
+                    self.last = self.format(record)
+                except Exception:  # noqa: BLE001
+                    self.format_errors = getattr(self, "format_errors", 0) + 1
+
+        h = Sink(level=logging.DEBUG)
+        h.setFormatter(logging.Formatter("%(asctime)s %(name)s %(levelname)s %(module)s: %(message)s"))
+        return h
+
+
+_sink = None
+LOG_MODE = "off"
+
+
+def set_logging(mode: str) -> None:
+    """'off': logging disabled (as a library user who never configures logging would see it, minus stderr output);
+    'debug': the han loggers at DEBUG with a handler that formats every record - the configuration of the repository's
+    own reader_async.py / main_mqtt.py.  Explorations alternate between the two per task (mc/par.py)."""
+    import logging
+
+    global _sink, LOG_MODE
+    root = logging.getLogger("han")
+    if mode == "debug":
+        logging.disable(logging.NOTSET)
+        if _sink is None:
+            _sink = _Sink()
+        if _sink not in root.handlers:
+            root.addHandler(_sink)
+        root.setLevel(logging.DEBUG)
+        root.propagate = False
+        logging.raiseExceptions = True
+    else:
+        if _sink is not None and _sink in root.handlers:
+            root.removeHandler(_sink)
+        root.setLevel(logging.NOTSET)
+        logging.disable(logging.CRITICAL)
+    LOG_MODE = mode
 
 
 def hx(b) -> str:
